@@ -204,10 +204,10 @@ def _freshInterpreter(argv: list, hashSeed: str = "0", timeout: float = 900) -> 
 # --------------------------------------------------------------------------
 TIERS = {
     # prop: tier: (runs, wall cap s, per-run timeout s, workers)
-    "C17": {"quick": (6000, 300, 60, 16), "thorough": (400000, 2400, 60, 16)},
-    "C18": {"quick": (12000, 400, 120, 16), "thorough": (400000, 3600, 120, 16)},
-    "C14": {"quick": (6000, 300, 120, 16), "thorough": (300000, 3000, 120, 16)},
-    "C01": {"quick": (96, 1200, 900, 16), "thorough": (1600, 7200, 900, 16)},
+    "C17": {"quick": (6000, 600, 60, 16), "thorough": (400000, 2400, 60, 16)},
+    "C18": {"quick": (12000, 900, 120, 16), "thorough": (400000, 3600, 120, 16)},
+    "C14": {"quick": (6000, 600, 120, 16), "thorough": (300000, 3000, 120, 16)},
+    "C01": {"quick": (96, 2400, 900, 16), "thorough": (1600, 7200, 900, 16)},
 }
 
 
@@ -281,8 +281,11 @@ def runBatch(prop: str, tier: str, baseSeed: int, runsOverride: int | None = Non
     for v in sorted(agg["violations"], key=lambda v: (len(v["steps"]), v["index"])):
         byKey.setdefault(v["violation"]["key"], v)
     replayPaths = []
-    for key, v in sorted(byKey.items()):
-        path = _reportViolation(prop, tier, baseSeed, key, v, ctxmp)
+    for rank, (key, v) in enumerate(sorted(byKey.items())):
+        # every distinct key gets a verified replay file; only the first few are
+        # minimised (minimising a C01 history costs minutes)
+        path = _reportViolation(prop, tier, baseSeed, key, v, ctxmp,
+                                minimiseIt=rank < MAX_MINIMISED_KEYS.get(prop, 6))
         if path is None:
             exitCode = max(exitCode, EXIT_NONDET)
         else:
@@ -346,9 +349,12 @@ def _reach(machineCls: type, agg: dict, tier: str) -> list:
     return problems
 
 
+MAX_MINIMISED_KEYS = {"C01": 2}
+
+
 def _reportViolation(prop: str, tier: str, baseSeed: int, key: str, v: dict,
-                     ctxmp: Any) -> str | None:
-    budget = {"C01": 30}.get(prop, 400)
+                     ctxmp: Any, minimiseIt: bool = True) -> str | None:
+    budget = {"C01": 24}.get(prop, 400) if minimiseIt else 1
     timeout = {"C01": 3600}.get(prop, 600)
     mini = None
     try:
